@@ -193,7 +193,7 @@ func fixNL(data []byte) []byte {
 func Write(a *Archive, dir string) error {
 	for _, f := range a.Files {
 		fp := filepath.Clean(filepath.FromSlash(f.Name))
-		if isAbs(fp) || strings.HasPrefix(fp, ".."+string(filepath.Separator)) {
+		if isAbs(fp) || fp == ".." || strings.HasPrefix(fp, ".."+string(filepath.Separator)) {
 			return fmt.Errorf("%q: outside parent directory", f.Name)
 		}
 		fp = filepath.Join(dir, fp)
